@@ -100,7 +100,7 @@ class HostKeys(MutableMapping):
                     # entry.hostnames inside the loop
                     _hostnames = list(entry.hostnames)
                     for h in _hostnames:
-                        if self.check(h, entry.key):
+                        if self._has_entry(h, entry.key):
                             entry.hostnames.remove(h)
                     if len(entry.hostnames):
                         self._entries.append(entry)
@@ -224,6 +224,22 @@ class HostKeys(MutableMapping):
         if host_key is None:
             return False
         return host_key.asbytes() == key.asbytes()
+
+    def _has_entry(self, hostname, key):
+        """
+        Return True if some entry already associates exactly ``key`` with
+        ``hostname``. Unlike `check`, this also finds a key that is not the
+        first one of its type for that host (used to skip duplicates in `load`).
+        """
+        for e in self._entries:
+            if (
+                e.key is not None
+                and self._hostname_matches(hostname, e)
+                and e.key.get_name() == key.get_name()
+                and e.key.asbytes() == key.asbytes()
+            ):
+                return True
+        return False
 
     def clear(self):
         """
